@@ -702,7 +702,7 @@ func (r *runner) tamperAll(label string, signed *lib.Transaction, pathSel []stri
 	// multisig only: the bitmap claims a signer that did not sign / hides one that did
 	if pk, err := crypto.NewPublicKeyFromBytes(signed.Signature.PublicKey); err == nil {
 		if mk, ok := pk.(*crypto.BLS12381MultiPublicKey); ok {
-			for _, bm := range []byte{0b111, 0b001, 0b110} {
+			for _, bm := range []byte{0b111, 0b001, 0b110, 0b000} {
 				c := mk.Copy()
 				if c.SetBitmap([]byte{bm}) != nil || bytes.Equal(c.Bitmap(), mk.Bitmap()) {
 					continue
@@ -749,6 +749,10 @@ func Run(o *drv.Out) {
 	}
 	// a funded multisig address whose key carries threshold 0 ("no threshold")
 	(&runner{o: o, w: w, sc: "multi", mode: "multi", kind: fsm.MessageSendName, seen: seen, fails: fails}).runOpenMultisig()
+	// authorization that changes in the middle of a block (two-phase check of ApplyTransactions)
+	for _, sc := range schemes {
+		(&runner{o: o, w: w, sc: sc, mode: sc, kind: fsm.MessageEditStakeName, seen: seen, fails: fails}).runMidBlock()
+	}
 	// the same table with every governance proposal rejected by the local configuration
 	w.sm.SetProposalVoteConfig(fsm.RejectAllProposals)
 	for _, kind := range []string{fsm.MessageChangeParameterName, fsm.MessageDAOTransferName} {
@@ -758,9 +762,12 @@ func Run(o *drv.Out) {
 	w.sm.SetProposalVoteConfig(fsm.AcceptAllProposals)
 }
 
-// runOpenMultisig: sends from the address of own's member set with threshold 0. NewPublicKeyFromBytes
-// decodes multisig keys with the consensus constructor (threshold 0 allowed), so such an address is
-// spendable by any non-empty... or empty? subset whose aggregate verifies; the case measures which.
+// runOpenMultisig: sends from the funded address of own's member set with threshold 0.
+// NewPublicKeyFromBytes decodes multisig keys with the consensus constructor (threshold 0 allowed), so
+// such an address is spendable by any non-empty member subset (documented: threshold 0 = no
+// enforcement). Permanent corpus of finding C05:multisig-no-signer-accepted (repaired by dc0ba0c): the
+// EMPTY subset with the identity of G2 as signature verified too — nobody's key involved — and must
+// now be refused on all three paths, for threshold 0 and for own's real threshold.
 func (r *runner) runOpenMultisig() {
 	w := r.w
 	r.o.Case("multi/send/threshold-0-account")
@@ -793,5 +800,90 @@ func (r *runner) runOpenMultisig() {
 		tx2 := w.envelope(&fsm.MessageSend{FromAddress: own.addr, ToAddress: recipient, Amount: 1000}, fsm.MessageSendName)
 		tx2.Signature = &lib.Signature{PublicKey: own.multiKey(2).Bytes(), Signature: inf}
 		r.offer("threshold-2:no-signer:identity-signature", tx2, "", nil, paths)
+	})
+}
+
+// runMidBlock: one block [edit-stake by the output address redirecting the payout to `oth`; unstake by
+// the OLD output address; unstake by the NEW output address]. ApplyTransactions verifies signatures
+// and authorization of every transaction against the state at the START of the block (phase 1, batch
+// verifier) and authorization again against the current state when it executes it (phase 3, no-op
+// verifier). So the old output address passes phase 1 but must fail phase 3; the new one fails phase 1.
+func (r *runner) runMidBlock() {
+	w := r.w
+	P := w.P[r.sc]
+	r.o.Case(r.sc + "/block/output-redirected-mid-block")
+	r.f, r.sent, r.decl = &facts{}, 0, map[string]bool{}
+	w.inTxn(func() {
+		r.base = w.scan()
+		r.prepareBatch()
+		r.declareState()
+		mk := func(kind, variant string, signer *principal) *lib.Transaction {
+			tx := w.envelope(w.buildMsg(r.sc, kind, variant), kind)
+			sign(tx, signer, r.f)
+			return tx
+		}
+		t1 := mk(fsm.MessageEditStakeName, "redirect", P["out"])
+		t2 := mk(fsm.MessageUnstakeName, "", P["out"])
+		t3 := mk(fsm.MessageUnstakeName, "", P["oth"])
+		txs := []*lib.Transaction{t1, t2, t3}
+		var bzs [][]byte
+		for _, t := range txs {
+			bzs = append(bzs, txBytes(t))
+		}
+		crypto.SignatureCache.Reset()
+		var errs []lib.ErrorI
+		var senders [][]byte
+		var post *snap
+		w.inTxn(func() {
+			all := append(append(append([][]byte{}, bzs...), r.fill...), r.bad)
+			var berr lib.ErrorI
+			errs, senders, berr = r.applyBlock(all)
+			if berr != nil {
+				panic("c05: mid-block scenario refused: " + errStr(berr))
+			}
+			post = w.scan()
+		})
+		d := diffSnaps(r.bbase, post)
+		line := func(i int) string {
+			if errs[i] != nil {
+				return errStr(errs[i])
+			}
+			return "ok signer=" + drv.Hex(senders[i])
+		}
+		emit := func(i int, res string) {
+			t := txs[i]
+			cid := r.declareContent(t)
+			r.flushFacts()
+			r.o.Op(fmt.Sprintf("tx block %s %s %s %s", cid, keyToken(t.Signature.PublicKey), sigTok(t.Signature.Signature), drv.Hex(crypto.Hash(bzs[i])[:20])), res)
+			r.o.Count("path:block")
+			r.o.Nontrivial(r.o.CurCase() + "|" + fmt.Sprint(i) + "|" + res)
+		}
+		// the model evaluates each transaction on the state the code decides it on:
+		// t3 fails phase 1 (state at the start of the block); t1 executes on that state
+		emit(2, line(2))
+		if errs[0] == nil {
+			emit(0, line(0)+" "+d.line())
+		} else {
+			emit(0, line(0))
+		}
+		// ... and t2 is decided in phase 3 on the state t1 left: tell the model the new validator record
+		if v := post.vals[string(P["own"].addr)]; v != nil && errs[0] == nil {
+			r.o.Op(fmt.Sprintf("val %s %s %d %d %d %d", drv.Hex(v.Address), drv.Hex(v.Output), v.StakedAmount, b2i(v.Delegate), b2i(v.MaxPausedHeight != 0), b2i(v.UnstakingHeight != 0)), "ok")
+			if a := post.accts[string(P["out"].addr)]; a != nil {
+				r.o.Op(fmt.Sprintf("acct %s %d %d", drv.Hex(P["out"].addr), a.Amount, a.Nonce), "ok")
+			}
+		}
+		emit(1, line(1))
+		// oracle
+		replay := map[string]any{"block": []string{drv.Hex(bzs[0]), drv.Hex(bzs[1]), drv.Hex(bzs[2])}, "case": r.o.CurCase()}
+		if errs[0] != nil {
+			r.fail("C05:harness-scenario", "the redirecting edit-stake by the output address was refused: "+errStr(errs[0]), replay)
+		}
+		if errs[1] == nil {
+			r.fail("C05:unauthorized-state-change:unstake", r.o.CurCase()+": the OLD output address unstaked the validator after the payout had been redirected earlier in the same block (authorization evaluated on a stale state)", replay)
+		}
+		if len(d.val) != 1 || !strings.Contains(d.val[string(P["own"].addr)], "out=") || strings.Contains(d.val[string(P["own"].addr)], "unstaking") {
+			r.fail("C05:unauthorized-state-change:editStake", r.o.CurCase()+": unexpected validator changes after the block: "+d.line(), replay)
+		}
 	})
 }
